@@ -274,6 +274,20 @@ Section Filters.
     end.
 End Filters.
 
+(* ---------- a whole finder: peak finding (or xycoords), per-source statistics, filters ---------- *)
+(* [stat] = the per-source measurements (centroid, sharpness, roundness, peak, flux ...) of the
+   source at a detected position: library numerics, an uninterpreted input of the model *)
+Section Pipeline.
+  Variable stat : Z * Z -> row.
+  Definition run_finder (ny nx : nat) (conv : list (option Z)) (thr : option Z)
+      (kfp : list (list bool)) (ms4 : Z) (mask : option (list bool)) (exclude_border : bool)
+      (c : cfg) (xycoords : option (list (Z * Z))) : option (list (Z * row)) :=
+    match raw_positions ny nx conv thr kfp ms4 mask exclude_border true true true xycoords with
+    | None => None                       (* 'No sources were found.' *)
+    | Some pos => apply_all c (map stat pos)
+    end.
+End Pipeline.
+
 (* ---------- correspondence ---------- *)
 Definition row3 := (Z * Z * Z)%type.
 Definition row3_eqb (a b : row3) : bool :=
